@@ -397,3 +397,35 @@ def strip_core(s, w1, ws_pattern, w2, core):
 def cut_at(a, sep, b):
     s = a + sep + b
     return (sep in a) or (s.find(sep) == len(a) and s[:len(a)] == a and s[len(a) + 1:] == b)
+
+
+def int_of_digits(d):
+    return not (d.isascii() and d.isdigit()) or int(d) == nat(d)
+
+
+def substr_at(s, a, tok, b):
+    return s != a + tok + b or (s[len(a):len(a) + len(tok)] == tok and len(s) == len(a) + len(tok) + len(b))
+
+
+def py_int(s):
+    return int(s)
+
+
+def py_int_ok(s):
+    try:
+        int(s)
+        return True
+    except ValueError:
+        return False
+
+
+def nat_shift(d, z):
+    return not (d.isascii() and d.isdigit()) or int(d + "0" * z) == int(d) * 10 ** z
+
+
+def char_at(s, a, c, b):
+    return s != a + c + b or len(c) != 1 or s[len(a)] == c
+
+
+def head_of(a, rest):
+    return len(a) == 0 or (a + rest)[0] == a[0]
